@@ -89,8 +89,11 @@ def generate(repo):
     if factor != 2 or m.group(4) != m.group(5):
         raise UnknownShape("the Gram statement is not `-2 * Xᵀ * X`")
     # --- quadtree constants
-    m1 = re.search(r"static const int QT_NO_DIMS = (\d+) ;", qt)
-    m2 = re.search(r"static const int QT_NODE_CAPACITY = (\d+) ;", qt)
+    # `static const int X = 2;`, `static constexpr int X = 2;`, `constexpr static std::size_t X { 2 };`, `enum { X = 2 };`
+    def constant(name):
+        return (re.search(r"\b(?:static |const |constexpr |inline |unsigned |int |long |std :: size_t |size_t )+%s (?:=|\{) (\d+) \}? ?;" % name, qt)
+                or re.search(r"enum (?:[A-Za-z_]\w* )?\{ [^}]*\b%s = (\d+) [,}]" % name, qt))
+    m1, m2 = constant("QT_NO_DIMS"), constant("QT_NODE_CAPACITY")
     if not (m1 and m2):
         raise UnknownShape("cannot find QT_NO_DIMS / QT_NODE_CAPACITY")
     nodims, cap = int(m1.group(1)), int(m2.group(1))
